@@ -508,6 +508,16 @@ func Deep() map[string]interface{} {
 		"s": "scalar", "m": map[string]interface{}{"s": "x"}, "m3": map[string]interface{}{"a": 1, "b": 2, "c": 3},
 		"l": []interface{}{[]interface{}{1, 2}, []interface{}{3}}, "st": struct{ A int }{1}, "u_str": "unk", "X": 1, "Y": "b", "Tags": []string{"t1", "t2"},
 		"big": func() []int { b := make([]int, 70); b[69] = 39; return b }(), "num": 1,
+		// lists of growing length (whatever is sized by the longest list seen so far grows several times)
+		"grow": func() []interface{} {
+			var g []interface{}
+			for _, n := range []int{20, 40, 90, 180, 400, 900} {
+				l := make([]int, n)
+				l[n-1] = 7
+				g = append(g, l)
+			}
+			return g
+		}(),
 		// a long list whose neighbours are of different numeric kinds (every element is compared in its own kind)
 		"mixed": func() []interface{} {
 			var l []interface{}
